@@ -2,6 +2,7 @@ package main
 
 import (
 	"flag"
+	"go/types"
 	"fmt"
 	"os"
 	"path/filepath"
@@ -144,6 +145,36 @@ func main() {
 		}
 	case "check":
 		os.Exit(checkMain(os.Args[2:]))
+	case "mapranges":
+		w, err := loadWorld([]string{"./..."})
+		if err != nil {
+			fmt.Fprintln(os.Stderr, err)
+			os.Exit(2)
+		}
+		defer w.Close()
+		var out []string
+		for _, fn := range w.allRepoFuncs() {
+			if !inRepo(fn) || fn.Blocks == nil || strings.HasSuffix(w.Prog.Fset.Position(fn.Pos()).Filename, "_test.go") {
+				continue
+			}
+			n := 0
+			for _, b := range fn.Blocks {
+				for _, in := range b.Instrs {
+					if r, ok := in.(*ssa.Range); ok {
+						if _, isMap := r.X.Type().Underlying().(*types.Map); isMap {
+							n++
+						}
+					}
+				}
+			}
+			if n > 0 {
+				out = append(out, fmt.Sprintf("%s %d %s", fnFull(fn), n, w.Prog.Fset.Position(fn.Pos()).Filename))
+			}
+		}
+		sort.Strings(out)
+		for _, l := range out {
+			fmt.Println(l)
+		}
 	case "funcs":
 		w, err := loadWorld([]string{"./..."})
 		if err != nil {
